@@ -53,3 +53,25 @@ def closures_in(ctx, body, recursive=True):
         if recursive:
             out.extend(closures_in(ctx, c, True))
     return out
+
+
+INT_BITS = {'u8': 8, 'u16': 16, 'u32': 32, 'u64': 64, 'u128': 128, 'usize': 64,
+            'i8': 8, 'i16': 16, 'i32': 32, 'i64': 64, 'i128': 128, 'isize': 64}
+
+
+def narrowing_casts(body):
+    """(stmt, from_ty, to_ty) for IntToInt casts that can lose value bits (target narrower than source)"""
+    out = []
+    for s in body.stmts():
+        if s.kind == 'assign' and s.rv.kind == 'cast' and s.rv.raw['kind'] == 'IntToInt':
+            op = s.rv.ops[0]
+            if op.place is not None and not op.place.proj:
+                fty = body.local_ty(op.place.local)
+            elif op.const is not None:
+                fty = op.const['ty']
+            else:
+                continue
+            tty = s.rv.ty
+            if fty in INT_BITS and tty in INT_BITS and INT_BITS[tty] < INT_BITS[fty]:
+                out.append((s, fty, tty))
+    return out
